@@ -15,6 +15,9 @@ import (
 type c14Inv struct {
 	Req  int `json:"req"`  // event payload size
 	Resp int `json:"resp"` // response size
+	// SlowCaller: this caller is on a slow link - it has the response headers but reads the body only after the next
+	// invocation (of another caller) has been served completely
+	SlowCaller bool `json:"slowCaller,omitempty"`
 }
 
 type c14Case struct {
@@ -30,10 +33,24 @@ func (c *c14Case) scenario() *Scenario {
 		sc.Actors["ext:e1"] = []Script{{Steps: []Step{{Op: "ext.loop", Events: []string{"INVOKE"}}}}}
 	}
 	var steps []Step
+	held := ""
 	for i, inv := range c.Invs {
 		tag := fmt.Sprintf("i%d", i)
 		steps = append(steps, Step{Op: "rt.next", Tag: tag}, Step{Op: "rt.response", ID: "cur", Tag: tag, Body: &kit.Blob{Len: inv.Resp, Seed: uint64(1000 + i), Kind: c.Kind}})
-		sc.Driver = append(sc.Driver, Step{Op: "invoke", Tag: tag, Payload: &kit.Blob{Len: inv.Req, Seed: uint64(i), Kind: c.Kind}})
+		inv2 := Step{Op: "invoke", Tag: tag, Payload: &kit.Blob{Len: inv.Req, Seed: uint64(i), Kind: c.Kind}}
+		if held != "" {
+			// the previous caller is still receiving: it reads on once this invocation is over
+			sc.Driver = append(sc.Driver, inv2, Step{Op: "signal", Name: held + ".read"}, Step{Op: "join", Tag: held})
+			held = ""
+			continue
+		}
+		if inv.SlowCaller && i < len(c.Invs)-1 {
+			inv2.Async, inv2.SigHeaders, inv2.ReadAfter = true, tag+".hdr", tag+".read"
+			sc.Driver = append(sc.Driver, inv2, Step{Op: "await", Name: tag + ".hdr", Ms: 10000})
+			held = tag
+			continue
+		}
+		sc.Driver = append(sc.Driver, inv2)
 	}
 	steps = append(steps, Step{Op: "rt.next", Tag: "final"})
 	sc.Actors["runtime"] = []Script{{Steps: steps}}
@@ -74,6 +91,10 @@ func c14Check(c c14Case) (out kit.Outcome) {
 		}
 		if inv.Resp > maxPayload {
 			out.Label("resp:over")
+		}
+		if inv.SlowCaller && i < len(c.Invs)-1 {
+			out.Label("slow-caller")
+			out.Nontrivial = true
 		}
 		if inv.Req > maxPayload {
 			out.Label("req:over")
@@ -172,11 +193,23 @@ func c14Gen(t *rapid.T) c14Case {
 		}
 		c.Invs = append(c.Invs, inv)
 	}
+	if rapid.IntRange(0, 3).Draw(t, "slowCaller") == 0 {
+		// a caller on a slow link is still receiving a large response while the next caller's (large, different) response
+		// comes in
+		i := rapid.IntRange(0, n-2).Draw(t, "slowIdx")
+		c.Invs[i].SlowCaller = true
+		c.Invs[i].Resp = rapid.SampledFrom([]int{maxPayload / 2, maxPayload - 1, maxPayload}).Draw(t, "slowResp")
+		c.Invs[i+1].Resp = rapid.SampledFrom([]int{maxPayload / 2, maxPayload, maxPayload + 1}).Draw(t, "nextResp")
+		if c.Kind == "zero" {
+			c.Kind = "random"
+		}
+	}
 	return c
 }
 
 func c14Fixed() []c14Case {
 	return []c14Case{
+		{Kind: "ascii", Invs: []c14Inv{{Req: 4, Resp: maxPayload, SlowCaller: true}, {Req: 5, Resp: maxPayload - 3}, {Req: 6, Resp: 10}}},
 		{Kind: "zero", Invs: []c14Inv{{Req: 5, Resp: maxPayload}, {Req: 5, Resp: maxPayload + 1}, {Req: maxPayload + 1, Resp: 7}, {Req: 3, Resp: 3}}},
 		{Kind: "random", Ext: true, Invs: []c14Inv{{Req: maxPayload, Resp: maxPayload - 1}, {Req: 1, Resp: maxPayload + 2}, {Req: 0, Resp: 0}}},
 	}
